@@ -139,6 +139,14 @@ func (c *CEnv) unify(a, b CVal) (CVal, CVal) {
 	} else if a.T == nil && b.T == nil {
 		a, b = c.defaultLit(a), c.defaultLit(b)
 	}
+	// a pointer compared with / selected against an interface value is implicitly converted (Go assignability)
+	if a.T != nil && b.T != nil {
+		if isIface(a.T) && isPointerLike(b.T) {
+			b = CVal{S: fmt.Sprintf("(ite (= %s 0) (mkI %d 0) (mkI %d %s))", b.S, c.e.typeTag(b.T), c.e.typeTag(b.T), b.S), T: a.T}
+		} else if isIface(b.T) && isPointerLike(a.T) {
+			a = CVal{S: fmt.Sprintf("(ite (= %s 0) (mkI %d 0) (mkI %d %s))", a.S, c.e.typeTag(a.T), c.e.typeTag(a.T), a.S), T: b.T}
+		}
+	}
 	// mode bv: different integer widths are widened to the larger (spec arithmetic convenience)
 	if c.e.bv() && a.T != nil && b.T != nil && isInteger(a.T) && isInteger(b.T) {
 		wa, sa := intWidth(a.T.Underlying().(*types.Basic))
